@@ -65,6 +65,14 @@ FAILING = [
     ("already-exists", "table-with-lengths", "CREATE TABLE T (K INT, V VARCHAR(3))", None),
     ("unknown-table", "ctas-source-with-comment", "CREATE TABLE X3 COMMENT = 'ghost' AS SELECT * FROM NOPE", None),
     ("unknown-column", "ctas-with-comment", "CREATE TABLE X4 COMMENT = 'ghost' AS SELECT NO_SUCH_COL FROM T", None),
+    # (new entries go at the end: recorded replays name statements by index)
+    ("unknown-table", "executemany", "<executemany INSERT INTO NOPE VALUES (%s, %s)>", None),
+    ("unknown-column", "executemany", "<executemany INSERT INTO T (K, NOCOL) VALUES (%s, %s)>", None),
+    ("wrong-number-of-values", "executemany", "<executemany INSERT INTO T (K) VALUES (%s, %s)>", None),
+    # several variables in one SET with the wrong number of values: if the statement is rejected, none of the variables may have been assigned
+    ("wrong-number-of-values", "multi-set-too-few", "SET (LO, HI, STEP) = (100, 200)", "may-succeed"),
+    ("wrong-number-of-values", "multi-set-too-many", "SET (LO, HI) = (7, 8, 9)", "may-succeed"),
+    ("wrong-number-of-values", "multi-set-one-value", "SET (LO, HI) = (7)", "may-succeed"),
 ]
 NOCTX = [
     ("no-current-database", "select", "SELECT * FROM T", (90105, "22000")),
@@ -152,6 +160,17 @@ def _do_failing(conn, cur, sql: str):
             o.exc, o.etype = e, etype_name(e)
             o.errno, o.sqlstate, o.msg = getattr(e, "errno", None), getattr(e, "sqlstate", None), getattr(e, "msg", None) or str(e)
         return o
+    if sql.startswith("<executemany "):
+        o = run(cur, "SELECT 1")
+        o.ok = False
+        try:
+            cur.executemany(sql[len("<executemany "):-1], [(1, "a"), (2, "b"), (3, "c")])
+            o.ok = True
+            o.rows = "executemany returned"
+        except Exception as e:
+            o.exc, o.etype = e, etype_name(e)
+            o.errno, o.sqlstate, o.msg = getattr(e, "errno", None), getattr(e, "sqlstate", None), getattr(e, "msg", None) or str(e)
+        return o
     return run(cur, sql)
 
 
@@ -181,6 +200,15 @@ def run_failure(case, ctx: Ctx) -> None:
         snap0 = snapshot(fs)
         ctx0 = (conn.database, conn.schema)
         o = _do_failing(conn, cur, sql)
+        if o.ok and exact == "may-succeed":
+            ctx.cls("form-accepted-by-this-tree")  # (then it is not a failing statement, and this check has nothing to say about it)
+            return
+        if exact == "may-succeed":
+            exact = None
+            for name in ("LO", "HI", "STEP"):
+                v = run(conn.cursor(), f"SELECT ${name}")
+                if v.ok:
+                    ctx.fail(sig("rejected-but-variable-assigned"), f"{sql} failed with {o}, yet ${name} = {v.rows!r}")
         if o.ok:
             ctx.fail(sig("not-rejected"), f"{sql} succeeded: {o.rows!r}")
         else:
@@ -195,7 +223,7 @@ def run_failure(case, ctx: Ctx) -> None:
                     ctx.fail(sig(f"wrong-errno|got={o.errno}/{o.sqlstate}"), f"{sql}: {o}")
                 elif code not in ALLOWED:
                     ctx.fail(sig(f"errno-not-a-snowflake-code|got={o.errno}/{o.sqlstate}"), f"{sql}: {o}")
-            if not sql.startswith("<") and isinstance(o.exc, snowflake.connector.errors.ProgrammingError):
+            if not sql.startswith("<write_pandas") and isinstance(o.exc, snowflake.connector.errors.ProgrammingError):
                 if cur.sqlstate != o.sqlstate:
                     ctx.fail(sig("cursor.sqlstate-not-set"), f"cursor.sqlstate={cur.sqlstate!r}, error sqlstate={o.sqlstate!r}")
         # nothing changed
@@ -329,7 +357,7 @@ PROP = Prop(
             strategy=_case,
             run=run_failure,
             rule=(
-                "Hypothesis draws one failing statement out of 54 (cause x position: unknown table in FROM/JOIN/subquery/CTE/IN-subquery, as DML/"
+                "Hypothesis draws one failing statement out of 60 (incl. executemany batches and multi-variable SET) (cause x position: unknown table in FROM/JOIN/subquery/CTE/IN-subquery, as DML/"
                 "MERGE/CTAS/CLONE/VIEW/DESCRIBE/ALTER/DROP/TRUNCATE/COMMENT/write_pandas target or source; unknown schema/database at each level; "
                 "unknown column/function; already-existing table/view/schema/database; wrong number of values; no current database/schema; "
                 "undefined $variable) x session state (open transaction with an uncommitted row or not, variables set, dict or tuple cursor) x "
